@@ -45,6 +45,7 @@ def shapes(v):
     yield "right", ("prog", "e", None, ("uid",), ("if", ("cmp", ("id", "f"), "==", L), T, F)), {"uid": 1, "f": v}
     yield "left", ("prog", "e", None, ("uid",), ("if", ("cmp", L, "!=", ("id", "f")), T, F)), {"uid": 1, "f": "q"}
     yield "tuple", ("prog", "e", None, ("uid",), ("if", ("cmp", ("id", "f"), "in", ("tup", (L, ("lit", 1)))), T, F)), {"uid": 1, "f": v}
+    yield "pairs", ("prog", "e", None, ("uid",), ("if", ("cmp", ("id", "f"), "in", ("tup", (("tup", (("lit", "name"), L)), ("tup", (("lit", "a"), ("lit", "b")))))), T, F)), {"uid": 1, "f": ("name", v)}
     yield "nested", ("prog", "e", v, ("uid",), ("if", ("cmp", ("id", "f"), "not in", ("tup", (("tup", (L, ("id", "g"))), L))), T, F)), {"uid": 1, "f": v, "g": 2}
 
 
@@ -230,7 +231,7 @@ def run(res, tier):
     res.set("states", res.cov.get("programs", 0))
     res.set("transitions", res.cov.get("evaluations", 0))
     res.set("traces_validated_against_impl", res.cov.get("evaluations", 0))
-    res.set("bounds", {"alphabet": SIGMA, "max_len": k, "payloads": len(PAYLOADS), "positions": 6, "layouts": 2})
+    res.set("bounds", {"alphabet": SIGMA, "max_len": k, "payloads": len(PAYLOADS), "positions": 7, "layouts": 2})
     res.assumptions += ["string contents holding a newline or both quote characters cannot be written in the DSL and are skipped"]
 
 
